@@ -10,6 +10,19 @@ open Htp.Gen
 @[simp] theorem modTx_cbCount (u : Nat) (f : Tx → Tx) (c : Conn) : (c.modTx u f).cbCount = c.cbCount := rfl
 @[simp] theorem setTx_events (t : Tx) (c : Conn) : (c.setTx t).events = c.events := rfl
 
+@[simp] theorem modIn_inn (c : Conn) (f : Tx → Tx) : (c.modIn f).inn = c.inn := by
+  unfold Conn.modIn; cases c.inn.tx <;> rfl
+@[simp] theorem modIn_out (c : Conn) (f : Tx → Tx) : (c.modIn f).out = c.out := by
+  unfold Conn.modIn; cases c.inn.tx <;> rfl
+@[simp] theorem modOut_inn (c : Conn) (f : Tx → Tx) : (c.modOut f).inn = c.inn := by
+  unfold Conn.modOut; cases c.out.tx <;> rfl
+@[simp] theorem modOut_out (c : Conn) (f : Tx → Tx) : (c.modOut f).out = c.out := by
+  unfold Conn.modOut; cases c.out.tx <;> rfl
+@[simp] theorem modIn_events (c : Conn) (f : Tx → Tx) : (c.modIn f).events = c.events := by
+  unfold Conn.modIn; cases c.inn.tx <;> rfl
+@[simp] theorem modOut_events (c : Conn) (f : Tx → Tx) : (c.modOut f).events = c.events := by
+  unfold Conn.modOut; cases c.out.tx <;> rfl
+
 /-- the event a callback invocation logs -/
 def eventOf (h : Hook) (uid : Option Nat) (data : Option Bytes) (isLast : Bool) (c : Conn) (gapLen : Nat) (stale : Bool) : Event :=
   let tx := (uid.bind c.findTx)
@@ -40,5 +53,149 @@ theorem runCallback_log (h : Hook) (uid : Option Nat) (data : Option Bytes) (isL
       | none => simp
       | some t => simp only; split <;> simp
     | regTxHooks => simp
+
+end Htp.Conn
+
+namespace Htp.Conn
+open Htp.Gen
+
+/-- a direction record with its tx reference erased: callbacks can only change a direction by clearing that reference -/
+def Dir.eraseTx (d : Dir) : Dir := { d with tx := none }
+
+/-- `f` leaves both directions alone except for clearing tx references -/
+def FrameDirs (c c' : Conn) : Prop := c'.inn.eraseTx = c.inn.eraseTx ∧ c'.out.eraseTx = c.out.eraseTx
+
+theorem FrameDirs.refl (c : Conn) : FrameDirs c c := ⟨rfl, rfl⟩
+theorem FrameDirs.trans {a b c : Conn} (h1 : FrameDirs a b) (h2 : FrameDirs b c) : FrameDirs a c :=
+  ⟨h2.1.trans h1.1, h2.2.trans h1.2⟩
+
+theorem frame_destroyTx (u : Nat) (c : Conn) : FrameDirs c (destroyTx u c) := by
+  unfold destroyTx FrameDirs Dir.eraseTx
+  constructor <;> (simp only []; split <;> rfl)
+
+theorem frame_modTx (u : Nat) (f : Tx → Tx) (c : Conn) : FrameDirs c (c.modTx u f) := ⟨rfl, rfl⟩
+theorem frame_setTx (t : Tx) (c : Conn) : FrameDirs c (c.setTx t) := ⟨rfl, rfl⟩
+
+theorem frame_runCallback (h : Hook) (uid : Option Nat) (data : Option Bytes) (isLast : Bool) (c : Conn) (g : Nat) (s : Bool) :
+    FrameDirs c (runCallback h uid data isLast c g s).1 := by
+  unfold runCallback
+  simp only
+  cases lookupAction c.policy c.cbCount with
+  | ok => exact ⟨rfl, rfl⟩
+  | declined => exact ⟨rfl, rfl⟩
+  | stop => exact ⟨rfl, rfl⟩
+  | error => exact ⟨rfl, rfl⟩
+  | destroyTx =>
+    simp only
+    cases uid.bind c.findTx with
+    | none => exact ⟨rfl, rfl⟩
+    | some t =>
+      simp only
+      split
+      · exact frame_destroyTx _ _
+      · exact ⟨rfl, rfl⟩
+  | regTxHooks =>
+    simp only
+    cases uid with
+    | none => exact ⟨rfl, rfl⟩
+    | some u => exact ⟨rfl, rfl⟩
+
+/-- sequencing with `>>?` preserves the frame -/
+theorem frame_andThen (c0 : Conn) (r : R) (f : Conn → R) (h1 : FrameDirs c0 r.1) (h2 : ∀ c, FrameDirs c (f c).1) :
+    FrameDirs c0 (r >>? f).1 := by
+  unfold R.andThen
+  split
+  · exact h1.trans (h2 r.1)
+  · exact h1
+
+theorem frame_runCallbackN (n : Nat) (h : Hook) (uid : Option Nat) (data : Option Bytes) (isLast : Bool) (g : Nat) (c : Conn) :
+    FrameDirs c (runCallbackN n h uid data isLast g c).1 := by
+  induction n generalizing c with
+  | zero => exact FrameDirs.refl c
+  | succ k ih =>
+    unfold runCallbackN
+    exact frame_andThen c _ _ (frame_runCallback ..) (fun c' => ih c')
+
+theorem frame_urlencBodyCallback (cfg : Cfg) (uid : Nat) (data : Option Bytes) (c : Conn) :
+    FrameDirs c (urlencBodyCallback cfg uid data c).1 := by
+  unfold urlencBodyCallback
+  cases c.findTx uid with
+  | none => exact FrameDirs.refl c
+  | some t =>
+    simp only
+    cases t.urlenBody with
+    | none => exact FrameDirs.refl c
+    | some u =>
+      simp only
+      cases data with
+      | some d => exact frame_setTx _ _
+      | none => simp only; split <;> first | exact FrameDirs.refl c | exact frame_setTx _ _
+
+theorem frame_reqRunHookBodyData (cfg : Cfg) (data : Option Bytes) (g : Nat) (c : Conn) :
+    FrameDirs c (reqRunHookBodyData cfg data g c).1 := by
+  unfold reqRunHookBodyData
+  split
+  · exact FrameDirs.refl c
+  · cases c.inn.tx with
+    | none => exact FrameDirs.refl c
+    | some uid =>
+      simp only
+      apply frame_andThen
+      · split
+        · exact frame_urlencBodyCallback ..
+        · exact FrameDirs.refl c
+      · intro c1
+        apply frame_andThen
+        · exact frame_runCallbackN ..
+        · intro c2
+          apply frame_andThen
+          · exact frame_runCallback ..
+          · intro c3
+            split
+            · exact frame_runCallback ..
+            · exact FrameDirs.refl c3
+
+theorem frame_reqProcessBodyData (cfg : Cfg) (data : Option Bytes) (g : Nat) (c : Conn) :
+    FrameDirs c (reqProcessBodyData cfg data g c).1 := by
+  unfold reqProcessBodyData
+  cases c.inn.tx with
+  | none => exact FrameDirs.refl c
+  | some uid =>
+    simp only
+    split
+    · exact ⟨rfl, rfl⟩
+    · have h := frame_reqRunHookBodyData cfg data g
+        (c.modTx uid fun t => { t with reqEntityLen := t.reqEntityLen + (data.map (·.length)).getD g })
+      split <;> exact (frame_modTx _ _ c).trans h
+
+/-- what `FrameDirs` gives for the cursor fields of the request direction -/
+theorem FrameDirs.inn_fields {c c' : Conn} (h : FrameDirs c c') :
+    c'.inn.read = c.inn.read ∧ c'.inn.len = c.inn.len ∧ c'.inn.consume = c.inn.consume ∧ c'.inn.cur = c.inn.cur ∧
+    c'.inn.bodyDataLeft = c.inn.bodyDataLeft ∧ c'.inn.status = c.inn.status ∧ c'.inn.buf = c.inn.buf ∧
+    c'.inn.chunkedLength = c.inn.chunkedLength ∧ c'.inn.curNull = c.inn.curNull := by
+  have h1 := h.1
+  unfold Dir.eraseTx at h1
+  injection h1
+  simp_all
+
+end Htp.Conn
+
+namespace Htp.Conn
+
+/-- htp_tx_req_process_body_data_ex returns only HTP_OK or HTP_ERROR -/
+theorem reqProcessBodyData_rc (cfg : Cfg) (data : Option Bytes) (g : Nat) (c : Conn) :
+    (reqProcessBodyData cfg data g c).2 = Rc.ok ∨ (reqProcessBodyData cfg data g c).2 = Rc.error := by
+  unfold reqProcessBodyData
+  cases c.inn.tx with
+  | none => exact Or.inr rfl
+  | some uid =>
+    simp only
+    by_cases h1 : c.reqDecompressor = true
+    · simp [h1]
+    · simp only [h1]
+      by_cases h2 : ((reqRunHookBodyData cfg data g
+          (c.modTx uid fun t => { t with reqEntityLen := t.reqEntityLen + (data.map (·.length)).getD g })).2 != Rc.ok) = true
+      · simp [h2]
+      · simp [h2]
 
 end Htp.Conn
